@@ -147,9 +147,15 @@ type ivl struct{ a, b int64 } // [a,b)
 // of its own range can be required to be hole-free. A scope's OWN gap fields (the ones FillGaps added to it)
 // must not overlap any other leaf of the scope; gaps of nested sub-decodes are ordinary leaves for S (an
 // outer format may legitimately decode the same bits again, e.g. mp4 mdat data and track samples).
-func c04Coverage(run *ev.Run, label string, S *decode.Value) {
+func c04Coverage(run *ev.Run, label string, S *decode.Value) { c04CoverageW(run, label, S, nil) }
+
+// c04CoverageW: win != nil gives the true window of a sub-decode that is KNOWN to be gap-filled (generated decoder
+// programs: the reference interpreter knows where each *Len/*Range sub-decode was asked to decode).
+func c04CoverageW(run *ev.Run, label string, S *decode.Value, win *ivl) {
 	var winA, winB int64
-	if S.IsRoot {
+	if win != nil {
+		winA, winB = win.a, win.b
+	} else if S.IsRoot {
 		L, err := bitLen(S.RootReader)
 		if err != nil {
 			run.Inconclusive("bitlen")
@@ -227,7 +233,7 @@ func c04Coverage(run *ev.Run, label string, S *decode.Value) {
 	// buffer root is only known to have been gap-filled itself when it has gap fields of its own (FieldFormat
 	// sub-decodes are decoded with FillGaps off and their holes are filled by the enclosing decode — macho inside
 	// macho_fat; demanding window coverage from them was a false alarm of the first thorough run, DESIGN 8.4).
-	if !S.IsRoot && len(gapsI) == 0 {
+	if win == nil && !S.IsRoot && len(gapsI) == 0 {
 		run.Count("coverage:scopes:sub-decode-without-own-gaps (its bits are judged by the buffer-root scope)", 1)
 		return
 	}
@@ -436,9 +442,67 @@ func c04Gendec(run *ev.Run) {
 			continue
 		}
 		label := fmt.Sprintf("gendec{%s} on %x rootarray=%v force=%v", gBody(prog), data, rootArr, force)
+		// the reference interpreter of C03 tells which values are gap-filled decodes and their true windows
+		kind := "struct"
+		if rootArr {
+			kind = "array"
+		}
+		L := int64(nbytes) * 8
+		exp := &eVal{Name: "", Kind: kind, IsRoot: true, GapScope: true, Win: L}
+		ref := &gRef{buf: bstrFromBytes(data, -1), limit: L, cur: exp, ops: map[string]int{}}
+		ref.try(prog)
+		gFinish(exp)
+		known := map[*decode.Value]bool{}
+		var pair func(e *eVal, rv *decode.Value)
+		pair = func(e *eVal, rv *decode.Value) {
+			if e.GapScope {
+				switch {
+				case e.IsRoot:
+					known[rv] = true
+					c04CoverageW(run, label, rv, nil) // window = the root's own buffer
+					run.Count("gendec:scopes:buffer-root", 1)
+				case e.Win > 0:
+					known[rv] = true
+					c04CoverageW(run, label, rv, &ivl{e.Start, e.Start + e.Win})
+					run.Count("gendec:scopes:sub-decode-with-reference-window", 1)
+				}
+			}
+			c, ok := rv.V.(*decode.Compound)
+			if !ok || e.Kind != "struct" && e.Kind != "array" {
+				return
+			}
+			var real []*decode.Value
+			for _, ch := range c.Children {
+				if !isGap(ch) {
+					real = append(real, ch)
+				}
+			}
+			if len(real) != len(e.Children) {
+				run.Count("gendec:subtrees-not-paired (tree shape is C03's subject)", 1)
+				return
+			}
+			byName := map[string]*decode.Value{}
+			for _, x := range real {
+				byName[x.Name] = x
+			}
+			for i, ec := range e.Children {
+				rc := real[i]
+				if rc.Name != ec.Name { // a listed C03 defect reorders nested roots inside sub-decode windows
+					if len(byName) != len(real) || byName[ec.Name] == nil {
+						run.Count("gendec:subtrees-not-paired (tree shape is C03's subject)", 1)
+						continue
+					}
+					rc = byName[ec.Name]
+				}
+				pair(ec, rc)
+			}
+		}
+		pair(exp, v)
 		scopes := gapFilledScopes(v)
 		for _, S := range scopes {
-			c04Coverage(run, label, S)
+			if !known[S] {
+				c04Coverage(run, label, S)
+			}
 		}
 		gaps := 0
 		for _, lf := range leavesOf(v) {
